@@ -124,6 +124,13 @@ type FnCtx struct {
 	isClosure bool            // verifying a function literal: free variables are captured (symbolic) values
 	entryScope map[string]Val
 	entryLocks []string
+	loopEntries map[int]*State
+	canaries []*Obligation
+	havocFor int
+	freshRows map[int]map[string]string
+	headHeap map[int]map[string]string
+	freshTop string
+	curLoop int
 }
 
 func (fc *FnCtx) warn(format string, a ...any) {
@@ -265,12 +272,47 @@ func structKeyName(t types.Type) string {
 }
 
 func (fc *FnCtx) fieldKey(structT types.Type, f *types.Var) (string, string) {
-	return "F$" + structKeyName(structT) + "." + f.Name(), "(Array Int " + fc.smt.sortOf(f.Type()) + ")"
+	key, srt := "F$"+structKeyName(structT)+"."+f.Name(), "(Array Int "+fc.smt.sortOf(f.Type())+")"
+	return key, srt
 }
 
+// noteRefComp: references stored in the heap at function entry refer to objects that exist at entry
+// (they are <= top0); this separates them from everything the function allocates itself.
+func (fc *FnCtx) noteRefComp(key, srt string, t types.Type) {
+	if fc.smt.refNoted[key] {
+		return
+	}
+	fc.smt.refNoted[key] = true
+	n := "H0_" + sanitize(key)
+	var body string
+	switch t.Underlying().(type) {
+	case *types.Pointer, *types.Map, *types.Chan, *types.Signature, *types.Interface:
+		if _, isTP := types.Unalias(t).(*types.TypeParam); isTP {
+			return
+		}
+		body = "(<= (select " + n + " r) top0)"
+	case *types.Slice:
+		body = "(<= (s_base (select " + n + " r)) top0)"
+	default:
+		return
+	}
+	fc.smt.declare(n, fmt.Sprintf("(declare-const %s %s)", n, srt))
+	if _, ok := fc.smt.initHeap[key]; !ok {
+		fc.smt.initHeap[key] = n
+		fc.smt.heapSort[key] = srt
+	}
+	fc.smt.declare("top0", "(declare-const top0 Int)")
+	fc.smt.axiom("(forall ((r Int)) (! " + body + " :pattern ((select " + n + " r))))")
+}
+
+// elemsKey: one heap component per slice ELEMENT TYPE (slices of different element types never alias)
 func (fc *FnCtx) elemsKey(elem types.Type) (string, string) {
 	es := fc.smt.sortOf(elem)
-	return "E$" + es, "(Array Int (Array Int " + es + "))"
+	tn := types.TypeString(types.Unalias(elem), func(p *types.Package) string { return p.Name() })
+	if _, isTP := types.Unalias(elem).(*types.TypeParam); isTP {
+		tn = es
+	}
+	return "E$" + sanitize(tn), "(Array Int (Array Int " + es + "))"
 }
 
 func (fc *FnCtx) ptrKey(elem types.Type) (string, string) {
@@ -369,8 +411,20 @@ func (fc *FnCtx) readField(st *State, base Val, i int) Val {
 	f := su.Field(i)
 	if isPtr {
 		k, ks := fc.fieldKey(sT, f)
-		v := Val{sel(fc.comp(st, k, ks), base.T), f.Type()}
+		c := fc.comp(st, k, ks)
+		v := Val{sel(c, base.T), f.Type()}
 		fc.assumeTyped(st, v)
+		if c == fc.smt.initHeap[k] {
+			// a component this path has never written still holds entry values: references in it exist at entry
+			switch f.Type().Underlying().(type) {
+			case *types.Pointer, *types.Map, *types.Chan, *types.Signature, *types.Interface:
+				if _, isTP := types.Unalias(f.Type()).(*types.TypeParam); !isTP {
+					st.assumeOnce("(<= " + v.T + " top0)")
+				}
+			case *types.Slice:
+				st.assumeOnce("(<= (s_base " + v.T + ") top0)")
+			}
+		}
 		return v
 	}
 	if isOpaqueStruct(sT) {
